@@ -14,6 +14,7 @@ package handler
 //@ event SendResponse = call interop.(InvokeResponseSender).SendResponse
 //@ event SendResponseTooLarge = ret interop.(InvokeResponseSender).SendResponse when typeis(r0, *interop.ErrorResponseTooLarge)
 //@ event SendResponseOK = ret interop.(InvokeResponseSender).SendResponse when r0 == nil
+//@ event SendResponseTruncated = ret interop.(InvokeResponseSender).SendResponse when typeis(r0, *interop.ErrTruncatedResponse)
 //@ event SendResponseRefused = ret interop.(InvokeResponseSender).SendResponse when r0 == interop.ErrInvalidInvokeID || r0 == interop.ErrResponseSent
 //@ event SendError = call interop.(InvokeResponseSender).SendErrorResponse
 //@ event SendErrorOK = ret interop.(InvokeResponseSender).SendErrorResponse when r0 == nil
@@ -69,6 +70,9 @@ package handler
 //@   ensures [stale-or-duplicate-400] delta(SendResponseRefused) == 1 ==> delta(RenderInterop) == 1 && delta(RtResponseSent) == 0 && delta(RenderAccepted) == 0 && delta(SendError) == 0
 //@   ensures [oversize-413] delta(SendResponseTooLarge) == 1 && delta(SendErrorOK) == 1 ==> delta(SendError) == 1 && delta(RtResponseSent) == 1 && delta(Render413) == 1 && delta(RenderAccepted) == 0
 //@   ensures [oversize-error-body] delta(SendResponseTooLarge) == 1 ==> delta(SendError) == 1
+// C02: a response whose body breaks off is answered 400; the invoker, who has received nothing in the buffered case, is handed a
+// platform error instead of an empty success, and the runtime's protocol state moves on
+//@   ensures [C02: a-truncated-response-is-answered-and-the-invoker-told] delta(SendResponseTruncated) == 1 ==> delta(SendError) == 1 && delta(RtResponseSent) == 1 && delta(RenderTruncated) == 1 && delta(RenderAccepted) == 0
 // C12: a response whose mode header is unknown is answered 400 and the invoker gets the platform's error: the invocation's one
 // response has been given, so the runtime's protocol state moves on like after any other answered response (it was left in
 // "response being sent", where every later call including next is refused until the timeout reset)
